@@ -28,7 +28,7 @@ def outcomeKind : Outcome → String
 
 def realKind : Real → String
   | .ok .. => "ok"
-  | .diag _ => "diag"
+  | .diag .. => "diag"
   | .panic _ => "panic"
 
 /-- entrait's own diagnostics (everything else that arrives as `compile_error!` is syn's) -/
@@ -43,8 +43,8 @@ def isEntraitMessage (m : String) : Bool :=
 def outcomesAgree (m : Outcome) (r : Real) : Bool :=
   match m, r with
   | .ok _, .ok .. => true
-  | .diag msg, .diag msgs => msgs == [msg]
-  | .synErr, .diag msgs => !(msgs.any isEntraitMessage)
+  | .diag msg, .diag msgs _ => msgs == [msg]
+  | .synErr, .diag msgs _ => !(msgs.any isEntraitMessage)
   | .panic _, .panic _ => true
   | _, _ => false
 
@@ -70,7 +70,7 @@ def processCase (c : Case) (verbose : Bool) : List String :=
              r.prefixOk, r.parsed)
         | _, .ok _ r => (false, false, r.prefixOk, r.parsed)
         | _, _ => (true, true, true, true)
-      let props := Obs.evalAll c.variant c.attr item c.input m c.real c.info ++ " " ++ Obs.evalC15 c.attr item m c.real
+      let props := Obs.evalAll c.variant c.attr item c.input m c.real c.info ++ " " ++ Obs.evalC15 c.variant c.attr item m c.real (rt && synStable item c.input)
       let head := s!"RES {c.id} modelled=1 rt={bstr rt} model={outcomeKind m} real={realKind c.real} agree={bstr agree} tok={bstr tok} struct={bstr struct_} prefix={bstr prefixOk} parsed={bstr parsed} {props}"
       if verbose then
         let mt := match m with
@@ -80,7 +80,7 @@ def processCase (c : Case) (verbose : Bool) : List String :=
           | .panic s => "PANIC " ++ s
         let rtxt := match c.real with
           | .ok toks _ => showToks toks
-          | .diag msgs => "DIAG " ++ " | ".intercalate msgs
+          | .diag msgs loci => "DIAG " ++ " | ".intercalate msgs ++ " @ " ++ " | ".intercalate loci
           | .panic s => "PANIC " ++ s
         [head, s!"INPUT {c.id} {showToks c.input}", s!"ATTR {c.id} {showToks c.attr}",
          s!"PRINT {c.id} {showToks item.print}", s!"MODEL {c.id} {mt}", s!"REAL {c.id} {rtxt}"]
